@@ -1,5 +1,6 @@
 from __future__ import annotations
 from abc import abstractmethod
+import re
 import typing
 from typing import Tuple
 
@@ -751,9 +752,12 @@ class VhdlScope:
             else:
                 raise AssertionError("Internal error, cannot name object")
 
-            # remove leading and trailing underscores
-            # since they are not allowed in vhdl
-            name = name.strip("_")
+            # remove leading and trailing underscores and collapse
+            # repeated underscores since they are not allowed in vhdl
+            name = re.sub("_+", "_", name).strip("_")
+
+            if name == "":
+                name = "unnamed" if fallback is None else fallback
 
             # avoid name collisions by appending counter to names
             if name.lower() in used_names:
